@@ -9,6 +9,8 @@ CONSTANTS
   HandlerSeqs <- B_HSeqs
   UpProgs <- B_UpProgs
   CRProg <- B_CR
+  Forms = {"fresh"}
+  Colls = {}
   QuitOn = TRUE
   QuitDeferred = TRUE
   DefCap = 1
